@@ -406,6 +406,38 @@ def policy_change_stream(res: Result, runs: list[dict[str, Any]], work: Path, sc
                 res.sample({"case": case, "outcome": out, "documented_rule_accepts": want}, limit=6)
 
 
+def subday_policy_stream(res: Result, runs: list[dict[str, Any]], work: Path, schemas: dict[str, Any], tier: str) -> None:
+    """Two-ceremony histories whose configured KSK policy has durations BELOW ONE DAY (PT90M, PT1H30M, P1DT12H30M, PT45S): the
+    emitted SKR echoes them, and the next ceremony has to read that file as its previous SKR.  Every production value is a
+    whole number of days, so only these histories show a writer that spells time-only durations differently."""
+    profiles = [("PT90M", {"publish_safety": "PT90M"}), ("PT1H30M+P1DT12H30M", {"publish_safety": "PT1H30M", "retire_safety": "P1DT12H30M"}), ("PT45S", {"publish_safety": "PT45S", "retire_safety": "PT12H"})]
+    for name, extra in profiles[: (2 if tier == "quick" else 3)]:
+        boot = scenario_for(0, schemas["normal"], "honest", 0)
+        boot.req_id = "req-q0-subday-" + name
+        o = R.run_ceremony(boot, work, answer="Yes", ksk_policy_extra=extra)
+        o["case"] = {"path": [], "schema": "normal", "variant": "subday-policy:bootstrap", "ksk_policy": extra}
+        runs.append(o)
+        res.count(o["case"])
+        res.bump("variant:subday-policy")
+        if not o["written"]:
+            res.violation("bootstrap ceremony did not succeed", o["case"], key="bootstrap:subday:" + name, outcome=o["outcome"])
+            continue
+        judge_written(res, work, o, o["case"], boot, None, None, "bootstrap")
+        prev_xml = o["file_after"]
+        sc = scenario_for(1, schemas["normal"], "honest", 0, boot.start + timedelta(days=101), boot.req_id)
+        sc.req_id = "req-q1-subday-" + name
+        o2 = R.run_ceremony(sc, work, answer="Yes", prev_xml=prev_xml.decode(), ksk_policy_extra=extra)
+        case = {"path": ["normal/subday-policy"], "schema": "normal", "variant": "subday-policy:successor", "quarter": 1, "ksk_policy": extra}
+        o2["case"] = case
+        runs.append(o2)
+        res.count(case)
+        res.bump("variant:subday-policy")
+        if o2["outcome"] != {"ok": True} or not o2["written"]:
+            res.violation("an honest successor ceremony was refused: the previous SKR is the file the tools wrote themselves (KSK policy with durations below one day)", case, key="refused:subday-policy:" + name, outcome=o2["outcome"])
+        else:
+            judge_written(res, work, o2, case, sc, None, prev_xml, "subday-policy")
+
+
 def sections_stream(res: Result, runs: list[dict[str, Any]], work: Path, schemas: dict[str, Any], tier: str) -> None:
     """Ceremonies whose configuration sets the SAME-NAMED options of two sections (R.shared_section_options(): num_bundles and
     validate_signatures of request_policy / response_policy) to DIFFERENT values, fed with an honest previous SKR, a previous
@@ -704,6 +736,7 @@ def run(tier: str, driver_ok: bool) -> Result:
             explore(res, lib.rng("C10:" + text.name), runs, work, schemas, tier, text=text, budget=20 if quick else 50, depth_max=2 if quick else 3, full=False, must=tuple(REUSE_ALONE))
         sections_stream(res, runs, work, schemas, tier)
         policy_change_stream(res, runs, work, schemas, tier)
+        subday_policy_stream(res, runs, work, schemas, tier)
         if driver_ok:
             with_line = [x for x in runs if "line" in x]
             outs = lib.run_driver([x["line"] for x in with_line], exe=DRIVER)
